@@ -355,8 +355,12 @@ class MembraneTx:
             return JUNK
         if isinstance(node, ast.Subscript):
             b = self.ev(node.value, env, cur)
-            if b.kind == "hash" and ast.unparse(node.slice) == ":16":
-                return b
+            # the audit hash: the first 16 hex digits (64 bits), however the 16 is spelled
+            if b.kind == "hash" and isinstance(node.slice, ast.Slice) and node.slice.lower is None \
+                    and node.slice.step is None and node.slice.upper is not None:
+                u = self.ev(node.slice.upper, env, cur)
+                if u.kind == "nat" and u.lean == "16":
+                    return b
             return JUNK
         if isinstance(node, ast.Call):
             f = node.func
@@ -494,10 +498,26 @@ class MembraneTx:
             if name in stack or len(stack) > 6:
                 bad(st, "recursive helper")
             fn = self.methods[name]
-            params = [a.arg for a in fn.args.args][1:]
-            if call.keywords or len(call.args) != len(params):
-                bad(st, f"call of {name} with keywords / defaults")
+            # bind the arguments like Python does: positional, keyword, defaults; `@staticmethod` has no `self`
+            decos = {ast.unparse(d) for d in fn.decorator_list}
+            if decos - {"staticmethod", "classmethod"} or fn.args.vararg or fn.args.kwarg or fn.args.kwonlyargs \
+                    or getattr(fn.args, "posonlyargs", None):
+                bad(st, f"helper {name} has a decorator / variadic / keyword-only parameters")
+            allargs = [a.arg for a in fn.args.args]
+            params = allargs if "staticmethod" in decos else allargs[1:]
+            dflt = dict(zip(allargs[len(allargs) - len(fn.args.defaults):], fn.args.defaults))
+            if len(call.args) > len(params) or any(isinstance(a, ast.Starred) for a in call.args):
+                bad(st, f"call of {name} with too many / starred arguments")
             callee_env = {p: self.ev(a, env, cur) for p, a in zip(params, call.args)}
+            for kw in call.keywords:
+                if kw.arg is None or kw.arg not in params or kw.arg in callee_env:
+                    bad(st, f"call of {name}: keyword argument {kw.arg}")
+                callee_env[kw.arg] = self.ev(kw.value, env, cur)
+            for p_ in params:
+                if p_ not in callee_env:
+                    if p_ not in dflt:
+                        bad(st, f"call of {name}: no value for parameter {p_}")
+                    callee_env[p_] = self.ev(dflt[p_], {}, cur)
             touches_rate = any(is_self(n, "rate_limit") for n in ast.walk(fn))
 
             def k(v, _cenv, cur2, ghost2, depth2):
@@ -652,6 +672,12 @@ class MembraneTx:
         var = st.target.id
         it = self.sig_iter(st.iter, env, cur)
         body = [x for x in st.body if not self.is_noop(x)]
+        # `if not C: continue` followed by the rest of the body is `if C: <rest>` (guard-clause spelling of the scan)
+        if len(body) >= 2 and isinstance(body[0], ast.If) and not body[0].orelse \
+                and [type(x) for x in body[0].body if not self.is_noop(x)] == [ast.Continue] \
+                and isinstance(body[0].test, ast.UnaryOp) and isinstance(body[0].test.op, ast.Not) \
+                and not any(isinstance(n_, (ast.Continue, ast.Break)) for x in body[1:] for n_ in ast.walk(x)):
+            body = [ast.If(test=body[0].test.operand, body=body[1:], orelse=[])]
         ok = len(body) == 1 and isinstance(body[0], ast.If) and not body[0].orelse
         if ok:
             t = body[0].test
@@ -1489,6 +1515,119 @@ def module_consts(tree, module=None):
     return out
 
 
+_CONST_NAME = __import__("re").compile(r"^_*[A-Z][A-Z0-9_]*$")
+
+
+def resolve_constants(tree, module=None):
+    """Replace every use of a NAMED CONSTANT by its value, in place, before anything is translated:
+      * module level `NAME = <expr>` and class level `NAME = <expr>` (un-annotated, or annotated ClassVar / Final),
+        `NAME` spelled like a constant (`_RATE_WINDOW_SECONDS`, `MAX_X`), bound exactly once there and never re-bound
+        anywhere in the file (no `global NAME`, no `self.NAME = …` / `Cls.NAME = …` / `cls.NAME += …`, no `del`);
+      * whose VALUE - read from the imported module / class when the harness passes it (so a computed constant such as
+        `re.IGNORECASE` or `6 * 10` is covered), else a literal - is an int, a bool or a str;
+      * uses: the bare name for a module constant; `self.NAME`, `<Class>.NAME`, `cls.NAME`, `type(self).NAME`,
+        `self.__class__.NAME` inside the class for a class constant.  Enum classes and dataclass fields are not
+        constants.  A changed VALUE changes the translation (and the agreement theorem then fails); anything that is not
+        provably a constant is left alone and the pieces that use it stay outside the subset (fail closed)."""
+    if tree is None:
+        return tree
+    import enum as _enum
+
+    def value_of(owner, name, node):
+        if owner is not None and name in vars(owner):
+            v = vars(owner)[name]
+        elif owner is None and isinstance(node, ast.Constant):
+            v = node.value
+        else:
+            return None
+        if isinstance(v, bool) or isinstance(v, str):
+            return v
+        if isinstance(v, int):
+            return int(v)
+        return None
+
+    def bindings(body):
+        out = {}
+        for n in body:
+            if isinstance(n, ast.Assign) and len(n.targets) == 1 and isinstance(n.targets[0], ast.Name):
+                out.setdefault(n.targets[0].id, []).append(n.value)
+            elif isinstance(n, ast.AnnAssign) and isinstance(n.target, ast.Name) and n.value is not None:
+                ann = ast.unparse(n.annotation)
+                out.setdefault(n.target.id, []).append(n.value if ("ClassVar" in ann or "Final" in ann) else None)
+            elif isinstance(n, (ast.AugAssign,)) and isinstance(n.target, ast.Name):
+                out.setdefault(n.target.id, []).extend([None, None])
+        return out
+    # names re-bound somewhere (attribute stores, globals, deletes, stores to the bare name inside functions)
+    rebound = set()
+    for n in ast.walk(tree):
+        if isinstance(n, ast.Attribute) and isinstance(n.ctx, (ast.Store, ast.Del)):
+            rebound.add(n.attr)
+        elif isinstance(n, ast.Global):
+            rebound.update(n.names)
+        elif isinstance(n, (ast.FunctionDef, ast.AsyncFunctionDef, ast.Lambda)):
+            for m in ast.walk(n):
+                if isinstance(m, ast.Name) and isinstance(m.ctx, (ast.Store, ast.Del)):
+                    rebound.add(m.id)
+                elif isinstance(m, ast.arg):
+                    rebound.add(m.arg)
+        elif isinstance(n, ast.Call) and ast.unparse(n.func) in ("setattr", "delattr") and len(n.args) >= 2 \
+                and isinstance(n.args[1], ast.Constant):
+            rebound.add(n.args[1].value)
+    mconst = {}
+    for name, vals in bindings(tree.body).items():
+        if _CONST_NAME.match(name) and len(vals) == 1 and vals[0] is not None and name not in rebound:
+            v = value_of(module, name, vals[0]) if module is not None else value_of(None, name, vals[0])
+            if v is not None:
+                mconst[name] = v
+    cconst = {}
+    for c in tree.body:
+        if not isinstance(c, ast.ClassDef):
+            continue
+        cobj = getattr(module, c.name, None) if module is not None else None
+        if module is not None and not isinstance(cobj, type):
+            continue
+        if cobj is not None and issubclass(cobj, _enum.Enum):
+            continue
+        if any("Enum" in ast.unparse(b) for b in c.bases):
+            continue
+        for name, vals in bindings(c.body).items():
+            if _CONST_NAME.match(name) and len(vals) == 1 and vals[0] is not None and name not in rebound:
+                v = value_of(cobj, name, vals[0]) if cobj is not None else value_of(None, name, vals[0])
+                if v is not None:
+                    cconst[(c.name, name)] = v
+
+    class R(ast.NodeTransformer):
+        def __init__(self):
+            self.cls = None
+
+        def visit_ClassDef(self, node):
+            prev, self.cls = self.cls, node.name
+            # the binding statements themselves stay as they are
+            node.body = [st if (isinstance(st, (ast.Assign, ast.AnnAssign))) else self.visit(st) for st in node.body]
+            self.cls = prev
+            return node
+
+        def visit_Name(self, node):
+            if isinstance(node.ctx, ast.Load) and node.id in mconst:
+                return ast.copy_location(ast.Constant(value=mconst[node.id]), node)
+            return node
+
+        def visit_Attribute(self, node):
+            self.generic_visit(node)
+            if not isinstance(node.ctx, ast.Load):
+                return node
+            base = ast.unparse(node.value)
+            owner = self.cls if base in ("self", "cls", "type(self)", "self.__class__") else base
+            if owner is not None and (owner, node.attr) in cconst:
+                return ast.copy_location(ast.Constant(value=cconst[(owner, node.attr)]), node)
+            return node
+    r = R()
+    tree.body = [st if (isinstance(st, (ast.Assign, ast.AnnAssign)) and not isinstance(st, ast.ClassDef)) else r.visit(st)
+                 for st in tree.body]
+    ast.fix_missing_locations(tree)
+    return tree
+
+
 def generate(repo: Path, membrane_mod=None, innate_mod=None):
     info = {"unsupported": {}}
     parts = []
@@ -1503,6 +1642,11 @@ def generate(repo: Path, membrane_mod=None, innate_mod=None):
         itree = None
         info["unsupported"]["innate.py"] = f"does not parse: {e}"
 
+    try:
+        resolve_constants(mtree, membrane_mod)
+        resolve_constants(itree, innate_mod)
+    except Exception as e:  # noqa  (the pieces that use an unresolved constant then leave the subset)
+        info["unsupported"]["constants"] = f"constant resolution failed: {e!r}"
     consts = {"m": module_consts(mtree, membrane_mod), "i": module_consts(itree, innate_mod)}
 
     def attempt(key, fn, doc):
